@@ -14,6 +14,15 @@ import numpy as np
 import pandas as pd
 
 
+
+def _scratch_dir(prefix):
+    """a scratch directory removed when the process ends"""
+    import atexit
+    import shutil
+    d = tempfile.mkdtemp(prefix=prefix)
+    atexit.register(shutil.rmtree, d, ignore_errors=True)
+    return d
+
 def main():
     warnings.simplefilter('ignore')
     logging.getLogger('biogeme').setLevel(logging.ERROR)
@@ -39,7 +48,7 @@ def main():
         for order in (0, 1):
             n += 1
             cwd = os.getcwd()
-            os.chdir(tempfile.mkdtemp(prefix='c14rec_'))
+            os.chdir(_scratch_dir('c14rec_'))
             try:
                 names = (first, second) if order == 0 else (second, first)
                 truth = {}
